@@ -68,6 +68,7 @@ type Val struct {
 }
 
 type CallEvent struct {
+	Snap      *State // state at the moment of the call (logged contract calls): what the arguments pointed to then
 	Kind      string // "fn", "invoke", "static"
 	FnTerm    Term
 	Recv      Term
